@@ -293,7 +293,7 @@ LayoutOK(p, L) ==
          /\ \A tr \in T : LET cell == CellOf(L, tr[1], tr[2], tr[3]) IN
                /\ cell >= 0 /\ cell < L.size
                /\ \A i \in DOMAIN L.dt : ~(cell >= L.dt[i][2] /\ cell < L.dt[i][2] + L.dt[i][3])
-         /\ \A t1, t2 \in T : t1 # t2 => CellOf(L, t1[1], t1[2], t1[3]) # CellOf(L, t2[1], t2[2], t2[3])
+         /\ Cardinality({CellOf(L, tr[1], tr[2], tr[3]) : tr \in T}) = Cardinality(T)     \* no two triples share a cell
 
 TLayout ==
     /\ IsEvent("layout")
